@@ -64,6 +64,9 @@ CONTRACTS = [
     Contract(
         R + "_eval",
         props=["C12", "C05"],
+        # C10: a run that failed is not marked evaluated, so every later accessor evaluates again and fails with the SAME library
+        # exception (it never reaches an accessor body with _sql_holder missing -> AttributeError)
+        clause_props={"raises.*.ensures.not_marked_evaluated": ["C12", "C05", "C10"], "ensures.marked_evaluated": ["C12", "C05", "C10"]},
         lets={"prov": "self._metadata_provider"},
         ensures={
             "session_forgotten": "prov._session_metadata == {}",
